@@ -17,6 +17,7 @@ struct{}                                   Unit
 sync.Once                                  Bool            ("already done")
 error                                      Option String   (status or message literal; `none` = nil)
 interface values the code only passes on   Opaque tag      (a token)
+*list.List / *list.Element                 List (ListElem T) / ListElem T  (identity + value; front first)
 a call whose callee is outside the repo
   and whose result is not used             Eff             (recorded in the `eff` field of the receiver)
 float64 (only d.Seconds() given to a metric) Int            (nanoseconds; the division by 1e9 is not modelled)
@@ -79,6 +80,28 @@ def beUint32 (b : List UInt8) : Option UInt32 :=
 /-- `d.Seconds()` of a time.Duration handed to a metric: the unit conversion (a float division by 1e9) is not
     modelled; the value is kept as the duration in nanoseconds -/
 def seconds (d : Int) : Int := d
+/-- `a[lo:hi]` with Go's bounds checks (0 ≤ lo ≤ hi ≤ len; capacity is not modelled) -/
+def slice {α : Type} (a : List α) (lo hi : Int) : Option (List α) :=
+  if lo < 0 ∨ hi < lo ∨ (a.length : Int) < hi then none else some ((a.take hi.toNat).drop lo.toNat)
+
+/-! ### container/list -/
+
+/-- a `*list.Element`: its identity and its value (the lists of the repository hold one value type each) -/
+structure ListElem (α : Type) where
+  id : Nat
+  Value : α
+deriving Repr
+
+/-- `l.MoveToFront(e)`: an element of another list (a stale pointer) leaves the list alone -/
+def moveToFront {α : Type} (l : List (ListElem α)) (id : Nat) : List (ListElem α) :=
+  match l.find? (fun x => x.id == id) with
+  | none => l
+  | some x => x :: l.filter (fun y => !(y.id == id))
+
+/-- a store through `e.Value.(*T)`: the object the element points to changes, wherever the element is -/
+def setValue {α : Type} (l : List (ListElem α)) (id : Nat) (v : α) : List (ListElem α) :=
+  l.map (fun x => if x.id == id then { x with Value := v } else x)
+
 /-- `a & b` on Go ints -/
 def iand (a b : Int) : Int :=
   match a, b with
